@@ -472,14 +472,16 @@ def distribution(ctx):
     tr = ctx.trace("LabelProbabilityInjector", "__call__")
     cp = atom(("call", "dict", (P("class_probabilities"),), ()))
     total = atom(("call", "sum", (atom(("mcall", cp, "values", (), ())),), ()))
-    own = lambda e: e.func is not None and e.func.qualname == site
+    # in __call__ itself or in a helper it calls, but not in the shared pre/post-processing
+    own = lambda e: e.func is not None and q.within(e, site, ("_preprocess", "_postprocess"))
+    gof = lambda e: q.guards(e)
     rs = [e for e in tr.raises() if own(e) and e.exc == "ValueError"]
-    over = [e for e in rs if q.guards_in(e, site) == [T.mk_cmp(">", total, const(1.0))] or q.guards_in(e, site) == [T.mk_cmp(">", total, const(1))]]
-    ctx.ob("GRD", site, "probabilities that sum to more than 1 are refused", len(over) == 1, "guards: %s" % "; ".join(q.short(g, 80) for e in rs for g in q.guards_in(e, site)[:1]), rs[0] if rs else None)
+    over = [e for e in rs if gof(e) == [T.mk_cmp(">", total, const(1.0))] or gof(e) == [T.mk_cmp(">", total, const(1))]]
+    ctx.ob("GRD", site, "probabilities that sum to more than 1 are refused", len(over) == 1, "guards: %s" % "; ".join(q.short(g, 80) for e in rs for g in gof(e)[:1]), rs[0] if rs else None)
     unk = [e for e in rs if e not in over]
     ok = len(unk) == 1
     if ok:
-        g = q.guards_in(unk[0], site)[-1]
+        g = gof(unk[0])[-1]
         c = q.is_cmp(g)
         sides = [q.set_operands(atom(x)) for x in c[2].atoms()] if c is not None and c[1] == "!=" and c[2].single_atom() is None else []
         ok = len(sides) == 2 and None not in sides
